@@ -123,6 +123,11 @@ pub fn gen_history(seed: u64, max_ops: usize, allow_abandon: bool, extra: bool) 
     // cards and nothing else is a path of its own
     let w_cards = if extra && r.chance(1, 3) { 3 } else { 0 };
     let card_times: Vec<i64> = vec![-5, 0, 7, 1_700_000_000];
+    // bulk ingestion: batch mode (skip_sync, compression level, no auto-checkpoint, pre-sized log)
+    // and skip-index commits with a later finalize
+    let w_batch = if extra && r.chance(1, 4) { 3 } else { 0 };
+    let mut in_batch = false;
+    let mut skipped_indexes = false;
     for _ in 0..n_ops {
         if !st.open {
             ops.push(Op::Open);
@@ -130,7 +135,7 @@ pub fn gen_history(seed: u64, max_ops: usize, allow_abandon: bool, extra: bool) 
             st.flush();
             continue;
         }
-        let c = r.weighted(&[w_put, w_upd, w_del, w_commit, w_reopen, w_abandon, w_emb, w_check, w_vac, w_doc, w_steer, w_cards]);
+        let c = r.weighted(&[w_put, w_upd, w_del, w_commit, w_reopen, w_abandon, w_emb, w_check, w_vac, w_doc, w_steer, w_cards, w_batch]);
         match c {
             0 | 6 => {
                 let pay = gen_pay(&mut r, &mix, &st);
@@ -219,6 +224,22 @@ pub fn gen_history(seed: u64, max_ops: usize, allow_abandon: bool, extra: bool) 
                 st.open = false;
             }
             7 => ops.push(Op::Check),
+            12 => {
+                if in_batch {
+                    ops.push(Op::EndBatch);
+                    in_batch = false;
+                } else if skipped_indexes && r.chance(1, 2) {
+                    ops.push(Op::FinalizeIndexes);
+                    skipped_indexes = false;
+                } else if r.chance(1, 3) {
+                    ops.push(Op::CommitSkipIndexes);
+                    st.flush();
+                    skipped_indexes = true;
+                } else {
+                    ops.push(Op::BeginBatch(BatchSpec { compression_level: *r.pickv(&[0i32, 1, 3, 9, 19]), disable_auto_checkpoint: r.chance(1, 2), skip_sync: r.chance(2, 3), wal_pre_size: *r.pickv(&[0u64, 0, 100_000, 300_000]) }));
+                    in_batch = true;
+                }
+            }
             11 => {
                 st.n += 1;
                 let k = r.range(1, 3);
@@ -394,6 +415,14 @@ pub fn gen_corpus(seed: u64, cfg: &CorpusCfg) -> Scenario {
             // search while records are still pending (instant index)
             ops.extend(battery(&mut r, 2, &ts_pool, n_docs));
         }
+        if cfg.mutate && r.chance(1, 14) {
+            // the process dies with records still in the log; the next open replays them on top of
+            // the committed indexes
+            ops.push(Op::Abandon);
+            ops.push(Op::Open);
+            ops.push(Op::Check);
+            committed_docs.append(&mut pending_docs);
+        }
         if (d as u64 + 1) % commit_every == 0 {
             ops.push(Op::Commit);
             committed_docs.append(&mut pending_docs);
@@ -496,6 +525,7 @@ pub fn gen_single_file(seed: u64, max_ops: usize) -> Scenario {
             s.fault.short_write_pm = *r.pickv(&[0u32, 50]);
             s.fault.eintr_pm = *r.pickv(&[0u32, 20]);
             s.fault.max_errors = r.range(1, 3) as u32;
+            s.fault.fsyncdir_eio_pm = *r.pickv(&[0u32, 0, 150, 400]);
         }
     }
     // sidecar refusal
